@@ -135,6 +135,8 @@ func NewSchema(config SchemaConfig) (Schema, error) {
 		}
 	}
 
+	schema.buildPossibleTypeMap()
+
 	// Add extensions from config
 	if len(config.Extensions) != 0 {
 		schema.extensions = config.Extensions
@@ -148,9 +150,8 @@ func NewSchema(config SchemaConfig) (Schema, error) {
 func (gq *Schema) AddImplementation() error {
 
 	// Keep track of all implementations by interface name.
-	if gq.implementations == nil {
-		gq.implementations = map[string][]*Object{}
-	}
+	gq.implementations = map[string][]*Object{}
+	gq.possibleTypeMap = nil
 	for _, ttype := range gq.typeMap {
 		if ttype, ok := ttype.(*Object); ok {
 			for _, iface := range ttype.Interfaces() {
@@ -191,7 +192,11 @@ func (gq *Schema) AppendType(objectType Type) error {
 		return err
 	}
 	//Now Add interface implementation..
-	return gq.AddImplementation()
+	if err := gq.AddImplementation(); err != nil {
+		return err
+	}
+	gq.buildPossibleTypeMap()
+	return nil
 }
 
 func (gq *Schema) QueryType() *Object {
@@ -239,25 +244,35 @@ func (gq *Schema) PossibleTypes(abstractType Abstract) []*Object {
 	return []*Object{}
 }
 func (gq *Schema) IsPossibleType(abstractType Abstract, possibleType *Object) bool {
-	possibleTypeMap := gq.possibleTypeMap
-	if possibleTypeMap == nil {
-		possibleTypeMap = map[string]map[string]bool{}
+	// The table is filled once, when the schema is built or extended, and
+	// only read afterwards, so concurrent requests may share it.
+	if typeMap, ok := gq.possibleTypeMap[abstractType.Name()]; ok {
+		return typeMap[possibleType.Name()]
 	}
+	for _, ttype := range gq.PossibleTypes(abstractType) {
+		if ttype.Name() == possibleType.Name() {
+			return true
+		}
+	}
+	return false
+}
 
-	if typeMap, ok := possibleTypeMap[abstractType.Name()]; !ok {
-		typeMap = map[string]bool{}
+// buildPossibleTypeMap precomputes possible-type membership for every
+// abstract type in the type map.
+func (gq *Schema) buildPossibleTypeMap() {
+	possibleTypeMap := map[string]map[string]bool{}
+	for name, ttype := range gq.typeMap {
+		abstractType, ok := ttype.(Abstract)
+		if !ok || !IsAbstractType(ttype) {
+			continue
+		}
+		typeMap := map[string]bool{}
 		for _, possibleType := range gq.PossibleTypes(abstractType) {
 			typeMap[possibleType.Name()] = true
 		}
-		possibleTypeMap[abstractType.Name()] = typeMap
+		possibleTypeMap[name] = typeMap
 	}
-
 	gq.possibleTypeMap = possibleTypeMap
-	if typeMap, ok := possibleTypeMap[abstractType.Name()]; ok {
-		isPossible, _ := typeMap[possibleType.Name()]
-		return isPossible
-	}
-	return false
 }
 
 // AddExtensions can be used to add additional extensions to the schema
